@@ -74,6 +74,13 @@ int verif_open (const char *path)
 	g_opened ++ ;
 	return r_nd ;
 }
+int g_ftrunc_calls, g_ftrunc_fd ; off_t g_ftrunc_len ;
+int ftruncate (int fd, off_t len)
+{	int r_nd, e_nd ;
+	g_ftrunc_calls ++ ; g_ftrunc_fd = fd ; g_ftrunc_len = len ;
+	if (r_nd) { verif_errno_cell = e_nd == 0 ? EIO : e_nd ; return -1 ; }
+	return 0 ;
+}
 int fstat (int fd, struct stat *st)
 {	int r_nd ; off_t s_nd ;
 	if (r_nd) { verif_errno_cell = EIO ; return -1 ; }
@@ -150,6 +157,15 @@ __CPROVER_ensures (vin_rsrc <= 0 ==> g_opened - g_released == (psf->rsrc.filedes
 __CPROVER_ensures ((vin_rsrc <= 0 && __CPROVER_return_value != 0) ==> psf->rsrc.filedes < 0) /*@C16.failed_probe_records_no_descriptor*/
 ;
 
+sf_count_t vin_tlen ;
+int psf_ftruncate (SF_PRIVATE *psf, sf_count_t len)
+__CPROVER_requires (__CPROVER_is_fresh (psf, sizeof (SF_PRIVATE)) && psf->file.filedes == vin_filedes && len == vin_tlen && g_ftrunc_calls == 0)
+__CPROVER_assigns (psf->error, __CPROVER_object_upto (psf->syserr, sizeof (psf->syserr)), g_ftrunc_calls, g_ftrunc_fd, g_ftrunc_len, verif_errno_cell)
+__CPROVER_ensures (vin_tlen < 0 ==> (__CPROVER_return_value != 0 && g_ftrunc_calls == 0)) /*@C08.negative_length_is_refused*/ /*@C09.negative_length_is_refused*/
+__CPROVER_ensures (vin_tlen >= 0 ==> (g_ftrunc_calls == 1 && g_ftrunc_fd == vin_filedes && g_ftrunc_len == vin_tlen)) /*@C08.file_cut_at_the_requested_length*/
+__CPROVER_ensures ((vin_tlen >= 0 && __CPROVER_return_value != 0) ==> psf->error != 0) /*@C15.failed_truncate_sets_error*/ /*@C09.failed_truncate_sets_error*/
+;
+
 static void keep (void) { void *k [] = { (void *) vio_read_c, (void *) vio_write_c, (void *) vio_seek_c, (void *) vio_tell_c } ; (void) k ; }
 
 void h_fread (void)
@@ -180,6 +196,12 @@ void h_fclose (void)
 {	SF_PRIVATE *psf ; int a [4] ; vin_virtual = a [0] ; vin_do_not_close = a [1] ; vin_filedes = a [2] ; g_eintr_budget = a [3] ; g_close_calls = 0 ;
 	psf_fclose (psf) ;
 	REACH (g_close_calls == 1, "descriptor closed") ;
+	CANARY () ;
+}
+void h_ftruncate (void)
+{	SF_PRIVATE *psf ; sf_count_t len ; int a [1] ; sf_count_t l ; vin_filedes = a [0] ; vin_tlen = l ; g_ftrunc_calls = 0 ;
+	int r = psf_ftruncate (psf, len) ;
+	REACH (r == 0 && vin_tlen > 0, "file cut") ;
 	CANARY () ;
 }
 void h_open_rsrc (void)
